@@ -103,6 +103,7 @@ type Explorer struct {
 	res      *Result
 	stop     bool
 	t0       time.Time
+	perShape map[string]int
 	perClass map[string]int
 	abort    bool // set by the watchdog: running paths end at their next instruction
 	rng      uint64
@@ -351,13 +352,25 @@ func (p *Path) violation(kind, msg string, extra *Term, stack string) {
 	}
 	viol := &Violation{Kind: kind, Msg: msg, Model: m, VarOrder: append([]string(nil), p.varOrder...),
 		Decisions: append([]int(nil), p.decisions...), Trace: p.renderEvents(), Stack: stack}
-	// keep at most a few candidates per class (kind + message + innermost frame)
+	// keep at most a few candidates per class (kind + message + innermost frame); within a
+	// class prefer structurally different inputs: the bag of node kinds of the lazily built
+	// input is the shape, at most 2 candidates per shape and 6 per class
 	cls := kind + "|" + msg + "|" + firstLine(stack)
 	if ex.perClass == nil {
 		ex.perClass = map[string]int{}
+		ex.perShape = map[string]int{}
 	}
-	if ex.perClass[cls] < 3 && (ex.opts.MaxViol == 0 || len(ex.res.Violations) < ex.opts.MaxViol) {
+	var kinds []string
+	for k, v := range m {
+		if strings.HasSuffix(k, "#type") || strings.HasSuffix(k, "#cands") {
+			kinds = append(kinds, v.Str)
+		}
+	}
+	sort.Strings(kinds)
+	shape := cls + "|" + strings.Join(kinds, ";")
+	if ex.perClass[cls] < 6 && ex.perShape[shape] < 2 && (ex.opts.MaxViol == 0 || len(ex.res.Violations) < ex.opts.MaxViol) {
 		ex.perClass[cls]++
+		ex.perShape[shape]++
 		ex.res.Violations = append(ex.res.Violations, viol)
 	}
 	if ex.opts.StopAtFirst {
